@@ -586,6 +586,7 @@ class History:
         self.seq = 0
         self.send_errors = []
         self.recv_errors = []
+        self.was_intact_at = {}  # serial -> offsets where its line stood intact just before the simulator damaged bytes
 
     def tick(self):
         self.seq += 1
@@ -1111,6 +1112,10 @@ class Gremlin:
                             pos = rec["start"] + off
                             b = os.pread(fd, 1, pos)
                             if len(b) == 1:
+                                # where every record is intact right now, before existing bytes change: a reader may have
+                                # been handed a record from a place that the damage (a flipped newline glues two
+                                # records) makes unrecognisable in the final image
+                                self.note_positions()
                                 os.pwrite(fd, bytes([b[0] ^ f["xor"]]), pos)
                                 self.corrupted[f["serial"]] = pos
                                 sim.fault("corrupt_line")
@@ -1125,6 +1130,23 @@ class Gremlin:
                 if guard > 100_000:
                     raise HarnessError("gremlin never finishes")
         self.done = True
+
+    def note_positions(self):
+        by_line = {}
+        for s, rec in self.hist.sends.items():
+            if rec["line"] is not None:
+                by_line.setdefault(bytes(rec["line"]), s)
+        with open(self.path, "rb") as f:
+            img = f.read()
+        pos = 0
+        while pos < len(img):
+            nl = img.find(b"\n", pos)
+            if nl < 0:
+                break
+            s = by_line.get(img[pos:nl + 1])
+            if s is not None:
+                self.hist.was_intact_at.setdefault(s, set()).add(pos)
+            pos = nl + 1
 
 
 # ------------------------------------------------------------------------------- one run
@@ -1463,7 +1485,7 @@ def check_history(spec, hist: History, path, gremlin: Gremlin, sim: Sim, rt_fail
                 continue
             # where the record physically is in the final file — not where its first raw write landed: with short writes a
             # record can be completed elsewhere (another writer's identical first bytes + this writer's remainder)
-            offs = list(positions.get(s, []))
+            offs = list(set(positions.get(s, [])) | hist.was_intact_at.get(s, set()))
             if rec.get("one_piece") and rec["start"] is not None and rec["start"] not in offs:
                 offs.append(rec["start"])  # written in one piece there, even if a neighbour's damage has since glued it to another line
             offs.sort()
